@@ -2,7 +2,7 @@
 from pyvc.contracts import contract, lemma, record, LoopSpec
 import contracts.checker  # noqa: callee contracts
 
-record("DoctestPart",
+record("DoctestPart", _directives="Optional[Val]",
        exec_lines="list[str]", want_lines="Optional[list[str]]", line_offset="int",
        orig_lines="list[str]", compile_mode="str", partno="int")
 
@@ -31,3 +31,27 @@ contract("xdoctest.doctest_part:DoctestPart.check",
          props=["C02"], gen="part_check_inputs",
          opts={"facts_after": {"got_": [("suffix", "got_ == S.suffix_join(trailing_gots, i)")]}},
          sentinel=("only-own-output", "S.V(" + _WANT + ", got_stdout, got_eval, runstate)"))
+
+
+# ------------------------------------------------------------------------ C18: displayed source
+contract("xdoctest.utils.util_str:indent", params={"text": "str", "prefix": "str"}, returns="str", trusted=True, log=False,
+         note="used only when orig_lines is None")
+contract("xdoctest.utils.util_str:add_line_numbers", params={"source": "list[str]", "start": "int", "n_digits": "Optional[int]"},
+         returns="list[str]", trusted=True, log=False, note="numbered variants are not under contract yet")
+contract("xdoctest.utils.util_str:highlight_code", params={"text": "str", "lexer_name": "str"}, returns="str", trusted=True, log=False)
+
+_HW = "(self.want_lines is not None and len(self.want_lines) > 0 and len('\\n'.join(self.want_lines)) > 0)"
+contract("xdoctest.doctest_part:DoctestPart.format_part",
+         params={"self": "DoctestPart", "linenos": "bool", "want": "bool", "startline": "int", "n_digits": "Optional[int]",
+                 "colored": "bool", "partnos": "bool", "prefix": "bool"},
+         returns="str",
+         requires=[("plain-display", "not linenos and not colored and not partnos and prefix"),
+                   ("prompt-lines-kept", "self.orig_lines is not None and len(self.orig_lines) > 0"),
+                   ("plain-lines", "S.plain_lines(self.orig_lines) and implies(self.want_lines is not None, S.plain_lines(self.want_lines))")],
+         modifies=[],
+         ensures=[("source-then-want", "result == ('\\n'.join(self.orig_lines + self.want_lines) if (want and " + _HW + ") "
+                                       "else '\\n'.join(self.orig_lines))")],
+         loops={0: LoopSpec(header="want_text.splitlines()", types={"want_lines": "list[str]"},
+                            invariants=[("wants-so-far", "want_lines == (self.want_lines[:_i0] if want else [])")])},
+         props=["C18", "C19"], opts={"native": False},
+         sentinel=("drops-the-want", "result == '\\n'.join(self.orig_lines)"))
